@@ -194,6 +194,12 @@ func (g *group) wrapExcessAliases(grid [][]Candidate, descriptions []string) {
 		breakeven += width + 1
 	}
 
+	// Always keep one column, even when it is wider than half the terminal:
+	// with none, the rows below would be split forever without being consumed.
+	if maxColumns < 1 && len(g.columnsWidth) > 0 {
+		maxColumns = 1
+	}
+
 	var rows [][]Candidate
 
 	for rowIndex := range grid {
